@@ -547,8 +547,8 @@ class ListItem(BlockToken):
         loose (bool): whether the list is loose.
     """
     repr_attributes = BlockToken.repr_attributes + ("leader", "indentation", "prepend", "loose")
-    pattern = re.compile(r'( {0,3})(\d{1,9}[.)]|[+\-*])($|\s+)')
-    continuation_pattern = re.compile(r'([ \t]*)(\S.*\n|\n)')
+    pattern = re.compile(r'( {0,3})(\d{1,9}[.)]|[+\-*])($|[ \t]+|\n)')
+    continuation_pattern = re.compile(r'([ \t]*)([^ \t\n].*\n|\n)')
 
     def __init__(self, parse_buffer, indentation, prepend, leader, line_number=None):
         self.line_number = line_number
@@ -1004,7 +1004,7 @@ class ThematicBreak(BlockToken):
     Thematic break token (a.k.a. horizontal rule.)
     This is a leaf block token without children.
     """
-    pattern = re.compile(r' {0,3}(?:([-_*])\s*?)(?:\1\s*?){2,}$')
+    pattern = re.compile(r' {0,3}(?:([-_*])[ \t]*?)(?:\1[ \t]*?){2,}$')
 
     def __init__(self, lines):
         self.line = lines[0].strip('\n')
